@@ -150,24 +150,6 @@ type attemptOpts struct {
 	BlockHandler bool // handler blocked at the stop and released afterwards (cancel kinds)
 }
 
-// readerState classifies the reader goroutine in a dump.
-func readerState(gs []run.G) string {
-	for _, g := range gs {
-		for _, f := range g.Frames {
-			if strings.Contains(f, "startDumpFromBinlogPosition.func1") {
-				switch {
-				case g.IOWait():
-					return "network"
-				case strings.HasPrefix(g.State, "select") || strings.HasPrefix(g.State, "chan send"):
-					return "holding"
-				default:
-					return "running"
-				}
-			}
-		}
-	}
-	return "none"
-}
 
 // runAttempt performs one scripted attempt on the session. start is the
 // position the attempt is expected to request (used to address packets).
@@ -195,7 +177,7 @@ func runAttempt(c *core.Ctx, s *run.Session, l *hist.Layout, start hist.Pos, spe
 	observe := func() {
 		st := "unknown"
 		if o.ObserveState {
-			st = readerState(run.LibGoroutines(nil))
+			st = s.ReaderState()
 		}
 		ob.mu.Lock()
 		ob.Reached = true
